@@ -609,6 +609,25 @@ func (p *authProp) run(rc *RunCtx, ap *AuthParams, info *RunInfo) *Verdict {
 			}
 		}
 	}
+	// 5a: whatever is presented to a registry under a scheme was obtained for that host and scheme
+	for _, r := range w.recs {
+		if r.kind != "registry" || r.authz == "" {
+			continue
+		}
+		i := r.hostIdx
+		switch {
+		case strings.HasPrefix(r.authz, "Bearer "):
+			tok := strings.TrimPrefix(r.authz, "Bearer ")
+			it, issued := w.tokens[tok]
+			if !(issued && it.host == i) && !(ap.Hosts[i].PresetToken && tok == w.preset(i)) {
+				return violation("token-reused-under-other-scheme", "", "request #%d presents %q as a Bearer token to %s, which no token endpoint issued for that host\n%s", r.n, tok, r.host, describe())
+			}
+		case strings.HasPrefix(r.authz, "Basic "):
+			if strings.TrimPrefix(r.authz, "Basic ") != w.basicToken(i) {
+				return violation("token-reused-under-other-scheme", "", "request #%d presents a Basic credential to %s that is not the one configured for it\n%s", r.n, r.host, describe())
+			}
+		}
+	}
 	// 3: bounded sends, non-401 answer
 	gotCred := false
 	hostsSeen := map[int]bool{}
